@@ -119,7 +119,7 @@ def main():
         "setup_cmd": "./check --setup",
         "hooks": {
             "guard": "verif",
-            "enable": "no source hooks: checks compile /repo's working tree through the go.mod replace directive; go build -overlay adds accessor files (tools/overlay.sh), and for the C04 scheduler build compiles each repository file importing \\"sync\\" from a copy derived at build time whose only change is that import line (tools/overlay.sh sched)",
+            "enable": "no source hooks: checks compile /repo's working tree through the go.mod replace directive; go build -overlay adds accessor files (tools/overlay.sh), and for the C04 scheduler build compiles each repository file importing the sync package from a copy derived at build time whose only change is that import line (tools/overlay.sh sched)",
             "baseline_off_cmd": "cd /repo && GOFLAGS=-mod=mod GOPROXY=off GOSUMDB=off GOTOOLCHAIN=local go test -vet=off -count=1 ./...",
             "source_commits": hooks_commits,
             "add_only": True,
